@@ -32,7 +32,9 @@ Tie    : both Coq models (binary64 instance) are run on the same inputs and ever
          points; the models flag near ties of those (codes 70/71/170).  Without such a flag the
          discrete outputs (and for Jolt the point, for the original solver the weights) must be
          bit-identical; BLAS-computed quantities (np.dot(v, v); bary.dot(points)) within a few ulp.
-         Other streams: the discrete outputs are compared only where no such near tie is flagged
+         Other streams: inputs in the class of the solver's ILLCOND known finding (thin sub-simplex:
+         aspect < 1e-3 for the original solver, < 1e-6 for Jolt) are not compared (both results are
+         rounding noise there); the discrete outputs are compared only where no such near tie is flagged
          (input perturbations move both sides of such a comparison together, so they cannot
          reveal it) and the model's own answer is unchanged under 8 random relative 2^-50
          perturbations of the input (margins of the sign decisions on differences of dot
@@ -54,7 +56,7 @@ PID = "C18"
 PROOF_FILES = ["theories/Props/C18.v", "theories/Checker/Kkt.v", "theories/Checker/KktZ.v",
                "theories/Spec/ConvexHull.v", "theories/Proofs/SimplexTrace.v",
                "theories/Proofs/SimplexLine.v", "theories/Proofs/SimplexTriangle.v",
-               "theories/Proofs/SimplexOrig.v", "theories/Proofs/SimplexLattice.v",
+               "theories/Proofs/SimplexTetra.v", "theories/Proofs/SimplexOrig.v", "theories/Proofs/SimplexOrigFace.v", "theories/Proofs/SimplexLattice.v",
                "theories/Proofs/SimplexLattice4.v", "theories/Proofs/SimplexRefuted.v"] + \
               [f"theories/Proofs/SimplexLat4{s}{i}.v" for s in "JO" for i in range(9)]
 BUILD_TARGETS = ["theories/Props/C18.vo", "theories/Model/SimplexRun.vo", "theories/Checker/KktZ.vo",
@@ -489,7 +491,8 @@ def prepare(args):
     Wq = round_weights(lam, MW)
     flatY = [x for p in pts for x in p]
     info = dict(q=[float(x) for x in q], nq=math.sqrt(float(sum(x * x for x in q))), S=S,
-                dep=affinely_dependent(pts), layout=[], check={}, mag={})
+                dep=affinely_dependent(pts), layout=[], check={}, mag={},
+                aspect=geometry(pts)["aspect"] if perts else 1.0)
     allnums = list(flatY)
     sol = {}
     j = r["jolt"]
@@ -712,6 +715,8 @@ def compare_jolt(case, r, e, extra=None):
             return "mismatch", f"v_len_sq: impl {vl!r} model {m['len']!r}"
         return "ok-exact", ""
     perts = ms[1:]
+    if e["aspect"] < 1e-6:
+        return "skipped-illcond", ""   # input class of C18-JOLT-ILLCOND: the result is rounding noise
     if any(70 in x["trace"] or 71 in x["trace"] for x in ms):
         return "skipped-tie", ""       # a comparison of two nearly equal squared distances decides
     stable = all(pm["st"] == 1 and pm["bits"] == m["bits"] for pm in perts)
@@ -758,6 +763,8 @@ def compare_orig(case, r, e, extra=None):
             return "mismatch", f"distance_squared: impl {d2!r} model {m['d2']!r}"
         return "ok-exact", ""
     perts = ms[1:]
+    if e["aspect"] < 1e-3:
+        return "skipped-illcond", ""   # input class of C18-ORIG-ILLCOND: the result is rounding noise
     if any(170 in x["trace"] for x in ms):
         return "skipped-tie", ""       # a comparison of two nearly equal squared distances decides
     stable = all(pm["st"] == 1 and pm["ord"] == m["ord"] for pm in perts)
@@ -845,6 +852,16 @@ def gen_cases(R, tier, replay):
     return cases
 
 
+def _cleanup(uid):
+    """remove this run's private scratch files under work/C18"""
+    import shutil
+    for pth in (cm.WORK / PID).glob(f"*{uid}*"):
+        try:
+            shutil.rmtree(pth) if pth.is_dir() else pth.unlink()
+        except OSError:
+            pass
+
+
 def site_of(solver):
     return "get_closest_point_to_origin" if solver == "jolt" else "distance_subalgorithm_with_backup_procedure"
 
@@ -873,7 +890,6 @@ def run(tier, seed, replay=None):
     t1 = _time.time()
     # several C18 runs may share /verif/work/C18 (lead's sweeps, seeds): private scratch names per run
     import os as _os
-    import shutil as _shutil
     uid = f"{tier[0]}{_os.getpid()}"
     cases = gen_cases(R, tier, replay)
     results = run_impl_cases(cases, "impl" + uid)
@@ -883,19 +899,15 @@ def run(tier, seed, replay=None):
         ev = evaluate(R, cases, results, "cases" + uid, per_file=max(40, min(400, len(cases) // (3 * cm.NCPU) + 1)))
     except RuntimeError as ex:
         R.corr_broken.append(f"Coq evaluation of certificates/model failed: {str(ex)[:600]}")
-        for pth in (cm.WORK / PID).glob(f"*{uid}*"):
-        try:
-            _shutil.rmtree(pth) if pth.is_dir() else pth.unlink()
-        except OSError:
-            pass
-    return R.finish()
+        _cleanup(uid)
+        return R.finish()
 
     t3 = _time.time()
     R.cov["phase_wall_s"] = dict(proofs=round(t1 - t0, 1), implementation=round(t2 - t1, 1), coq_evaluation=round(t3 - t2, 1))
     known = {e["id"]: e for e in R.known}
     distinct = set()
     hist, fail_hist = {}, {}
-    corr = {s: dict(ok=0, skipped_unstable=0, skipped_tie=0, skipped_exc=0, mismatch=0, exact_compared=0) for s in ("jolt", "orig")}
+    corr = {s: dict(ok=0, skipped_unstable=0, skipped_tie=0, skipped_illcond=0, skipped_exc=0, mismatch=0, exact_compared=0) for s in ("jolt", "orig")}
     suspects = []
     cov_codes = dict(jolt=set(), orig=set())
     n_problems = 0
@@ -934,6 +946,8 @@ def run(tier, seed, replay=None):
                 corr[solver]["skipped_unstable"] += 1
             elif st == "skipped-tie":
                 corr[solver]["skipped_tie"] += 1
+            elif st == "skipped-illcond":
+                corr[solver]["skipped_illcond"] += 1
             elif st == "skipped-exc":
                 corr[solver]["skipped_exc"] += 1
             elif st == "suspect":
@@ -1012,9 +1026,5 @@ def run(tier, seed, replay=None):
                     break
         except RuntimeError as ex:
             R.notes.append(f"search evaluation failed: {str(ex)[:300]}")
-    for pth in (cm.WORK / PID).glob(f"*{uid}*"):
-        try:
-            _shutil.rmtree(pth) if pth.is_dir() else pth.unlink()
-        except OSError:
-            pass
+    _cleanup(uid)
     return R.finish()
